@@ -7,7 +7,8 @@ miss=0; n=0
 for d in /verif/seeded/${1}*/; do
   n=$((n+1)); [ $n -le ${2:-0} ] && continue
   id=$(basename $d)
-  prop=$(/usr/bin/python3 -c "import json;print(json.load(open('$d/meta.json'))['caught_by'][0])")
+  prop=$(/usr/bin/python3 -c "import json;m=(json.load(open('$d/meta.json'))['caught_by'] or ['-']);print(m[0])" 2>/dev/null)
+  [ "$prop" = "-" ] && { echo "$id: recorded as not caught (outside the fault model)"; continue; }
   r=$(sh /verif/selftest/try_patch.sh $d/patch.diff $prop 2>&1 | grep -E "^(CAUGHT|MISSED|/repo has|patch does not)" | head -1)
   echo "$id: $r"
   case "$r" in CAUGHT*) ;; *) miss=$((miss+1));; esac
